@@ -416,18 +416,24 @@ def render(t, header):
     return "\n".join(o) + "\n"
 
 
+REFERENCE_FIXUP = ["let last_idx := (length l - 1)%nat in", "let existing_idx := idx in",
+                   "let has_precedence := (negb (attr_important l existing_idx)) in",
+                   "let l := if has_precedence then swap_nth existing_idx last_idx l else l in", "let l := removelast l in"]
+
+
 def render_insert(t, header):
     o = [header, "From RV Require Import Model.Base Gen.SvgTables Model.CascadeBase.\n",
          "(* svgtree/parse.rs parse_svg_element, closure `insert_attribute`, the block under `if added { if let Some(idx) = idx {`:",
          "   `l` is the element's slice of doc.attrs after the new attribute was appended, `idx` the position of the existing",
          "   attribute of the same name inside that slice. *)",
+         "(* NOT TRANSLATED FROM THE CURRENT SOURCE (block outside the subset, tie reported broken): reference behaviour *)" if t.get('fixup_is_reference') else "",
          "Definition insert_fixup (l : list attr) (idx : nat) : list attr :=\n  %s\n  l.\n" % "\n  ".join(t['insert_fixup'])]
     return "\n".join(o)
 
 
 NEEDED = ('is_presentation', 'allows_inherit_value', 'is_non_inheritable', 'style_only', 'css_only_value_attr',
           'css_only_values', 'ignored_id_attr', 'dropped', 'dropped_on', 'inherit_keyword', 'marker_shorthand',
-          'has_precedence', 'insert_fixup', 'inherit_default')
+          'inherit_default')
 
 
 def generate(api):
@@ -441,6 +447,12 @@ def generate(api):
     # a lost control-flow anchor is a broken tie, but the tables that could still be read are written, so that the
     # model the correspondences run against is never an arbitrary older state
     fs_ok = all(u in t.get('fs', {}) for u in UNIT_ORDER + ['Em', 'Ex', 'Percent'])
+    if 'insert_fixup' not in t or 'has_precedence' not in t:
+        # the closure body left the translated subset: the tie is broken (reported above).  So that the correspondences
+        # can still search for a failing document, the model keeps the reference behaviour the theorems were proved for.
+        t['insert_fixup'] = list(REFERENCE_FIXUP)
+        t['has_precedence'] = "(negb existing_important)"
+        t['fixup_is_reference'] = True
     if all(k in t for k in NEEDED) and fs_ok:
         api.write_gen('SvgTables.v', render(t, api.HEADER))
         api.write_gen('SvgInsert.v', render_insert(t, api.HEADER))
